@@ -2,7 +2,7 @@
 //! independence of the relocatable structures (C14).
 //!
 //!   drv-containers walk --automaton A.json --kind K --flavour F --cap N --mode cover|paths|random|replay
-//!        [--relocate] [--blocks] [--avoid-known] [--exclude a,b] [--depth 6] [--budget N]
+//!        [--relocate [--protect]] [--blocks] [--avoid-known] [--exclude a,b] [--depth 6] [--budget N]
 //!        [--walks N --steps N] [--trace-out t.ndjson] [--path p1,p2,...]
 //! prints one JSON summary line. Exit code 0 also when divergences were found (they are data);
 //! a fault (SIGSEGV/SIGBUS, e.g. an access to the poisoned old block after a relocation) ends the
@@ -127,10 +127,11 @@ fn walk(args: &vlib::Args) {
         avoid_known: args.flag("avoid-known"),
         exclude: args.get_or("exclude", "").split(',').filter(|s| !s.is_empty()).map(|s| s.to_string()).collect(),
     };
-    block::POOL.with(|p| p.borrow_mut().set_protect(cfg.relocate));
+    block::POOL.with(|p| p.borrow_mut().set_protect(args.flag("protect")));
     let seed = vlib::seed_from_env();
     let mode = args.get_or("mode", "cover");
     let mut w = walker::Walker::new(&aut, cfg);
+    w.use_memo = args.flag("merge") && !w.cfg.relocate;
     if let Some(p) = args.get("trace-out") {
         w.trace = Some(vlib::trace::TraceWriter::create(&p));
     }
@@ -162,6 +163,10 @@ fn main() {
     match args.positional(0).as_deref() {
         Some("walk") => walk(&args),
         Some("probe") => probe::main(&args),
+        Some("slotprobe") => {
+            std::panic::set_hook(Box::new(|_| {}));
+            probe::slotprobe()
+        }
         other => {
             eprintln!("unknown sub-command {other:?}");
             std::process::exit(2);
